@@ -34,6 +34,8 @@ def find_partition_loop(f):
     for w in [n for n in cfg.nodes if isinstance(n, ast.While)]:
         t = w.test
         stepped = [s.target.id for s in ast.walk(w) if isinstance(s, ast.AugAssign) and isinstance(s.target, ast.Name)]
+        stepped += [s.targets[0].id for s in ast.walk(w) if isinstance(s, ast.Assign) and isinstance(s.targets[0], ast.Name)
+                    and any(isinstance(n, ast.Name) and n.id == s.targets[0].id for n in ast.walk(s.value))]
         names = [n.id for n in ast.walk(t) if isinstance(n, ast.Name) and n.id in stepped]
         if not isinstance(t, ast.Compare) or len(set(names)) != 1:
             continue
@@ -70,13 +72,24 @@ def check_partition(ctx, rid, unit, qn, f, data="X", site_prefix=""):
         problems.append(f"the counter {j} does not start at 0")
     inner = [d for d in rd[w].get(j, frozenset()) if d in body_nodes]
     steps = [s for s in inner if isinstance(s, ast.AugAssign) and isinstance(s.op, ast.Add)]
+    if not steps:
+        # j = j + b  /  j = b + j
+        for s_ in inner:
+            if isinstance(s_, ast.Assign) and isinstance(s_.value, ast.BinOp) and isinstance(s_.value.op, ast.Add):
+                l_, r_ = s_.value.left, s_.value.right
+                other = r_ if (isinstance(l_, ast.Name) and l_.id == j) else (l_ if (isinstance(r_, ast.Name) and r_.id == j) else None)
+                if other is not None:
+                    aug = ast.AugAssign(target=ast.Name(id=j, ctx=ast.Store()), op=ast.Add(), value=other)
+                    ast.copy_location(aug, s_)
+                    aug._orig = s_
+                    steps.append(aug)
     if len(inner) != 1 or len(steps) != 1:
         problems.append(f"the counter {j} is not advanced by exactly one `+=` per iteration")
         ctx.violation(rid, unit.relpath, qn, norm_src(w.test), "; ".join(problems), line=w.lineno, site=site)
         return None
     step = steps[0]
     # step is the last statement of the body and not under a condition; no continue/break
-    if w.body[-1] is not step:
+    if w.body[-1] is not getattr(step, "_orig", step):
         problems.append("the step is not the last unconditional statement of the loop body")
     if any(isinstance(n, (ast.Continue, ast.Break, ast.Return)) for n in ast.walk(w)):
         problems.append("the loop has a continue/break/return")
@@ -103,7 +116,7 @@ def check_partition(ctx, rid, unit, qn, f, data="X", site_prefix=""):
     # b is not reassigned inside the loop and is positive
     bnames = {n.id for n in ast.walk(step.value) if isinstance(n, ast.Name)}
     for b in bnames:
-        if any(d in body_nodes for d in rd[step].get(b, frozenset())):
+        if any(d in body_nodes for d in rd[getattr(step, "_orig", step)].get(b, frozenset())):
             problems.append(f"the batch size {b} changes inside the loop")
     if problems:
         ctx.violation(rid, unit.relpath, qn, norm_src(w.test) + " ... " + norm_src(step), "; ".join(problems), line=w.lineno, site=site)
@@ -143,7 +156,7 @@ def run(pm, ctx):
         # batch size: len(X) if None else self.batch_size, validated >= 1
         bdef = None
         for b in part["bnames"]:
-            ds = [d for d in rd[part["step"]].get(b, ()) if d is not ENTRY]
+            ds = [d for d in rd[getattr(part["step"], "_orig", part["step"])].get(b, ()) if d is not ENTRY]
             if len(ds) == 1 and isinstance(ds[0], ast.Assign):
                 bdef = ds[0]
         tab = te.class_constraints(pm.classes["DiscriminativeModel"])
